@@ -106,6 +106,10 @@ func handleSDIFF(params internal.HandlerFuncParams) ([]byte, error) {
 	elems := diff.GetAll()
 
 	res := fmt.Sprintf("*%d", len(elems))
+	if len(elems) == 0 {
+		// An empty array still needs its line terminator.
+		res += "\r\n"
+	}
 	for i, e := range elems {
 		res = fmt.Sprintf("%s\r\n$%d\r\n%s", res, len(e), e)
 		if i == len(elems)-1 {
@@ -186,6 +190,10 @@ func handleSINTER(params internal.HandlerFuncParams) ([]byte, error) {
 	elems := intersect.GetAll()
 
 	res := fmt.Sprintf("*%d", len(elems))
+	if len(elems) == 0 {
+		// An empty array still needs its line terminator.
+		res += "\r\n"
+	}
 	for i, e := range elems {
 		res = fmt.Sprintf("%s\r\n$%d\r\n%s", res, len(e), e)
 		if i == len(elems)-1 {
@@ -326,6 +334,10 @@ func handleSMEMBERS(params internal.HandlerFuncParams) ([]byte, error) {
 	elems := set.GetAll()
 
 	res := fmt.Sprintf("*%d", len(elems))
+	if len(elems) == 0 {
+		// An empty array still needs its line terminator.
+		res += "\r\n"
+	}
 	for i, e := range elems {
 		res = fmt.Sprintf("%s\r\n$%d\r\n%s", res, len(e), e)
 		if i == len(elems)-1 {
@@ -348,6 +360,10 @@ func handleSMISMEMBER(params internal.HandlerFuncParams) ([]byte, error) {
 
 	if !keyExists {
 		res := fmt.Sprintf("*%d", len(members))
+		if len(members) == 0 {
+			// An empty array still needs its line terminator.
+			res += "\r\n"
+		}
 		for i, _ := range members {
 			res = fmt.Sprintf("%s\r\n:0", res)
 			if i == len(members)-1 {
@@ -436,6 +452,10 @@ func handleSPOP(params internal.HandlerFuncParams) ([]byte, error) {
 	members := set.Pop(count)
 
 	res := fmt.Sprintf("*%d", len(members))
+	if len(members) == 0 {
+		// An empty array still needs its line terminator.
+		res += "\r\n"
+	}
 	for i, m := range members {
 		res = fmt.Sprintf("%s\r\n$%d\r\n%s", res, len(m), m)
 		if i == len(members)-1 {
@@ -476,6 +496,10 @@ func handleSRANDMEMBER(params internal.HandlerFuncParams) ([]byte, error) {
 	members := set.GetRandom(count)
 
 	res := fmt.Sprintf("*%d", len(members))
+	if len(members) == 0 {
+		// An empty array still needs its line terminator.
+		res += "\r\n"
+	}
 	for i, m := range members {
 		res = fmt.Sprintf("%s\r\n$%d\r\n%s", res, len(m), m)
 		if i == len(members)-1 {
@@ -530,6 +554,10 @@ func handleSUNION(params internal.HandlerFuncParams) ([]byte, error) {
 	union := Union(sets...)
 
 	res := fmt.Sprintf("*%d", union.Cardinality())
+	if union.Cardinality() == 0 {
+		// An empty array still needs its line terminator.
+		res += "\r\n"
+	}
 	for i, e := range union.GetAll() {
 		res = fmt.Sprintf("%s\r\n$%d\r\n%s", res, len(e), e)
 		if i == len(union.GetAll())-1 {
